@@ -185,18 +185,21 @@ def serializeID (j : J) : Option J :=
 
 /-- serialisation of a leaf type; `none` = the `RuntimeError` branches of `complete_value` -/
 def serializeLeaf (s : SchemaD) (n : String) (j : J) : Option J :=
-  match s.findType n with
-  | some t =>
-    match t.kind with
-    | .enum => (t.values.find? (fun v => v.value == j)).map (fun v => .str v.name)
-    | _ => some j                                   -- custom scalar built from SDL: identity
-  | none =>
-    if n == "Int" then serializeInt j
-    else if n == "Float" then serializeFloat j
-    else if n == "String" then serializeString j
-    else if n == "Boolean" then serializeBoolean j
-    else if n == "ID" then serializeID j
-    else none
+  -- the five specified scalars FIRST: a schema description may or may not list them (`canon_schema.dump_schema` leaves
+  -- every type with one of these names out, `Spec.withBuiltins` lists them); listing them must not turn them into
+  -- custom scalars (`Lemmas/C05Builtins.lean: serializeLeaf_withBuiltins`)
+  if n == "Int" then serializeInt j
+  else if n == "Float" then serializeFloat j
+  else if n == "String" then serializeString j
+  else if n == "Boolean" then serializeBoolean j
+  else if n == "ID" then serializeID j
+  else
+    match s.findType n with
+    | some t =>
+      match t.kind with
+      | .enum => (t.values.find? (fun v => v.value == j)).map (fun v => .str v.name)
+      | _ => some j                                   -- custom scalar built from SDL: identity
+    | none => none
 
 /-! ### execution -/
 
